@@ -8,7 +8,7 @@ git -C $wt apply /verif/seeded/$seed/patch.diff || { echo "patch does not apply"
 mkdir -p /var/tmp/verif-try-out && cp /verif/UNCLAIMED_OBLIGATIONS.txt /verif/KNOWN_FINDINGS.txt /var/tmp/verif-try-out/ 2>/dev/null
 [ -f /verif/obligations.lock ] && cp /verif/obligations.lock /var/tmp/verif-try-out/
 for p in "$@"; do
-  out=$(/verif/bin/govc check -repo $wt -prop $p -tier quick -verif /var/tmp/verif-try-out 2>&1)
+  out=$(GOVC_CACHE_DIR=/verif/out/cache GOVC_NO_RETRY=1 GOVC_TIMEOUT=${SEED_TIMEOUT:-10} /verif/bin/govc check -repo $wt -prop $p -tier quick -verif /var/tmp/verif-try-out 2>&1)
   nv=$(echo "$out" | grep -c "^VIOLATION")
   echo "seed=$seed prop=$p violations=$nv $(echo "$out" | grep -c CHECK-BROKEN | sed 's/^0$//;s/^[1-9].*/BROKEN/')"
   echo "$out" | grep -A1 "^VIOLATION" | grep "^  " | head -${MAXSHOW:-4}
